@@ -200,6 +200,23 @@ func (lex *Lexer) Reset() {
 	lex.linenum = 1
 	lex.preBuiltinRune = 0
 	lex.buffer.Reset()
+	// nothing of an earlier text may influence how the next one is read
+	lex.next = nil
+	lex.prevrune = 0
+	lex.prevToken = Token{}
+	lex.prevPrevToken = Token{}
+	lex.priori = 0
+	lex.priorRune = [20]rune{}
+}
+
+// InLiteral reports whether the lexer is in the middle of a string or
+// rune literal; no token has been queued for it yet.
+func (lex *Lexer) InLiteral() bool {
+	switch lex.state {
+	case LexerStrLit, LexerStrEscaped, LexerRuneLit, LexerRuneEscaped:
+		return true
+	}
+	return false
 }
 
 func (lex *Lexer) EmptyToken() Token {
